@@ -221,3 +221,61 @@ def lookahead_twin(ctx):
                 ctx.violation(key + ':ctor', f.loc(bi, si), 'look-ahead reserve and buffer size formula disagree: ' + detail)
     if n == 0:
         ctx.anchor_missing('limit := write_pos - <reserve field> store')
+
+
+# --------------------------------------------------------------------------- FINDER-LOOKAHEAD
+
+@rule('FINDER-LOOKAHEAD', ['C01', 'C07'], floor=2)
+def finder_lookahead(ctx):
+    """A match finder may insert a position only when the look-ahead its insertion routine compares is there
+    (unless the encoder is flushing/finishing): `LZEncoderData::move_pos(required_for_flushing, ..)` holds positions
+    back (pending) until that many bytes are available. The two sides must agree: a finder whose insert-only path
+    (`skip`) walks a structure ordered by up to `nice_len` bytes (it reads `encoder.nice_len`: the binary tree)
+    has to require `nice_len` bytes, otherwise nodes enter the tree compared over a truncated length and the
+    ordering the later searches rely on is broken; a finder that only hashes (hash chains) needs its hash width,
+    a constant >= 4."""
+    F = ctx.facts
+    n = 0
+    for f in F.fns:
+        if not (f.self_adt and f.name == 'move_pos' and f.kind != 'closure'):
+            continue
+        calls = [(bi, t, c) for bi, t, c in f.calls() if c.name == 'move_pos' and 'LZEncoderData' in c.path]
+        if not calls:
+            continue
+        n += 1
+        adt = f.self_adt
+        key = '%s:requires-the-look-ahead-its-insertion-compares' % f.key
+        prov = Prov(f)
+        bi, t, c = calls[0]
+        a = prov.operand(t['args'][1], 0, '%d:T' % bi)
+        a_nice = any(x[0] == 'field' and x[2] == 'nice_len' for x in expr_walk(a))
+        a_const = a[2] if a[0] == 'const' and isinstance(a[2], int) else None
+        while a_const is None and a[0] == 'cast':
+            a = a[-1]
+            a_const = a[2] if a[0] == 'const' and isinstance(a[2], int) else None
+        skips = [g for g in F.fns if g.self_adt == adt and g.name == 'skip']
+        if not skips:
+            ctx.violation(key, f.loc(bi), 'cannot find the finder\'s insert-only routine `skip` (anchor lost, fail closed)')
+            continue
+        uses_nice = False
+        for g in skips:
+            for b in g.reachable:
+                for s in g.blocks[b]['stmts']:
+                    if s['k'] == 'assign' and s['rv']['r'] == 'use':
+                        p = op_place(s['rv']['o'])
+                        if p is not None and any(isinstance(x, dict) and x.get('n') == 'nice_len' for x in p['p']):
+                            uses_nice = True
+        if uses_nice:
+            if a_nice:
+                ctx.ok(key, f.loc(bi), 'insertion compares up to nice_len bytes and move_pos requires %s' % expr_str(a)[:60])
+            else:
+                ctx.violation(key, f.loc(bi), 'the insert-only path of %s compares up to `nice_len` bytes, but move_pos lets a position through with %s bytes of '
+                              'look-ahead while the encoder is not finishing: nodes enter the search structure compared over a truncated length '
+                              '(after a flush in the middle of the data the tree order later searches rely on is broken)' % (last_seg(adt), expr_str(a)[:40]))
+        else:
+            if a_const is not None and a_const >= 4 or a_nice:
+                ctx.ok(key, f.loc(bi), 'insertion only hashes; move_pos requires %s bytes (hash width 4)' % expr_str(a)[:40])
+            else:
+                ctx.violation(key, f.loc(bi), 'move_pos requires %s bytes of look-ahead, less than the 4 bytes the hash needs' % expr_str(a)[:40])
+    if not n:
+        ctx.anchor_missing('match finder move_pos wrappers')
